@@ -23,7 +23,7 @@ def descriptions(seed, n_per_profile, profiles=None, start=0, shuffle=True):
     if os.environ.get("VERIF_PROFILES"):   # development aid: restrict every workload to some profiles
         profiles = [p for p in (profiles or gen.PROFILES) if p in os.environ["VERIF_PROFILES"].split(",")]
     for p in (profiles or gen.PROFILES):
-        for j in range(n_per_profile * gen.PROFILE_MULT.get(p, 1)):
+        for j in range(max(n_per_profile, gen.PROFILE_MIN.get(p, 0))):
             g = gen.generate("%d.%d" % (seed, j), p, shuffle=shuffle)
             for e in (A.LE, A.BE):
                 f = A.with_endianness(g["file"], e)
